@@ -5,16 +5,17 @@
 (* to node incarnations) are judged:                                                                  *)
 (*  KeepsResponsive : a live peer that answered n within the last 15 minutes is in n's tables;         *)
 (*  DropsDead       : a peer silent (crashed) for more than 20 min + one ping period + slack is gone;  *)
-(*  Relearns        : a restarted peer is known under its new id by every live node within 20 min;     *)
+(*  Relearns        : a restarted peer is known under its new id within 20 min - by every live node in     *)
+(*                    networks of up to 20 servers, by at least one other live node in larger ones;      *)
 (*  RefreshEvery15  : every node with a bootstrap list starts a find_node(own id) lookup at least every  *)
 (*                    15 min (+ slack); the bootstrap-less first node never does (populate is a no-op);  *)
 (*  NeverStaysEmpty : no live node with a live bootstrap node has an empty main table.                 *)
 EXTENDS Integers, Sequences, FiniteSets, TLC, Json, IOUtils, TLCExt
-VARIABLES l, lastAns, down, started, lastRefresh, beh, first, exempt
+VARIABLES l, lastAns, down, started, lastRefresh, beh, first, exempt, nserv
 Rec == ndJsonDeserialize(IOEnv.TRACE)
-vars == <<l, lastAns, down, started, lastRefresh, beh, first, exempt>>
+vars == <<l, lastAns, down, started, lastRefresh, beh, first, exempt, nserv>>
 Min == 60000
-TInit == l = 1 /\ lastAns = <<>> /\ down = <<>> /\ started = <<>> /\ lastRefresh = <<>> /\ beh = -1 /\ first = 0 /\ exempt = {}
+TInit == l = 1 /\ lastAns = <<>> /\ down = <<>> /\ started = <<>> /\ lastRefresh = <<>> /\ beh = -1 /\ first = 0 /\ exempt = {} /\ nserv = 0
 SeqSet(q) == {q[i] : i \in 1..Len(q)}
 Get(f, k, d) == IF k \in DOMAIN f THEN f[k] ELSE d
 
@@ -32,7 +33,11 @@ Boundary(e) ==
                 a[1] \in alive /\ a[2] \in alive /\ a[1] # a[2] /\ ~a[4] /\ a[2] \notin TableOf(a[1])}
       keeps == bad = {}
       drops == \A p \in DOMAIN down : \A n \in alive : (t - down[p] > 26 * Min) => p \notin TableOf(n)
-      relearn == \A p \in DOMAIN started : (p \in alive /\ t - started[p] > 20 * Min) => \A n \in alive \ {p} : (Get(started, n, 0) < t - 20 * Min) => p \in TableOf(n)
+      \* up to K servers every live node must know the restarted peer; in larger networks (full buckets, lookups that reach
+      \* only the closest nodes) at least one other live node must
+      relearn == \A p \in DOMAIN started : (p \in alive /\ t - started[p] > 20 * Min) =>
+                   IF nserv <= 20 THEN \A n \in alive \ {p} : (Get(started, n, 0) < t - 20 * Min) => p \in TableOf(n)
+                   ELSE \E n \in alive \ {p} : p \in TableOf(n)
       refresh == \A n \in alive \ {first} : (t - Get(started, n, 0) > 17 * Min) => (n \in DOMAIN lr /\ t - lr[n] <= 16 * Min)
       nonempty == \A n \in alive \ {first} : (first \in alive /\ t - Get(started, n, 0) > 1 * Min) => MainSize(n) > 0
       failed == (IF keeps THEN {} ELSE {"C14_KeepsResponsive"}) \cup (IF drops THEN {} ELSE {"C14_DropsDead"})
@@ -40,13 +45,13 @@ Boundary(e) ==
                 \cup (IF nonempty THEN {} ELSE {"C14_NeverStaysEmpty"}) \cup (IF e.panicked THEN {"C14_NoPanic"} ELSE {})
   IN /\ IF failed # {} THEN PrintT(<<"VIOL", ToJson([line |-> l, b |-> beh, failed |-> failed, t_min |-> t \div Min,
                                      missing |-> {e.answers[i] : i \in bad}])>>) ELSE TRUE
-     /\ lastRefresh' = lr /\ UNCHANGED <<lastAns, exempt, down, started, beh, first>>
+     /\ lastRefresh' = lr /\ UNCHANGED <<lastAns, exempt, down, started, beh, first, nserv>>
 
 Step ==
   LET e == Rec[l] IN
-  CASE e.e = "reset" -> lastAns' = <<>> /\ down' = <<>> /\ started' = <<>> /\ lastRefresh' = <<>> /\ beh' = e.b /\ first' = e.first /\ exempt' = {}
-    [] e.e = "crash" -> down' = (e.p :> e.t) @@ down /\ UNCHANGED <<lastAns, started, lastRefresh, beh, first, exempt>>
-    [] e.e = "start" -> started' = (e.p :> e.t) @@ started /\ UNCHANGED <<lastAns, down, lastRefresh, beh, first, exempt>>
+  CASE e.e = "reset" -> lastAns' = <<>> /\ down' = <<>> /\ started' = <<>> /\ lastRefresh' = <<>> /\ beh' = e.b /\ first' = e.first /\ exempt' = {} /\ nserv' = e.servers
+    [] e.e = "crash" -> down' = (e.p :> e.t) @@ down /\ UNCHANGED <<lastAns, started, lastRefresh, beh, first, exempt, nserv>>
+    [] e.e = "start" -> started' = (e.p :> e.t) @@ started /\ UNCHANGED <<lastAns, down, lastRefresh, beh, first, exempt, nserv>>
     [] e.e = "boundary" -> Boundary(e)
 TNext == l <= Len(Rec) /\ Step /\ l' = l + 1
 TSpec == TInit /\ [][TNext]_vars
